@@ -1751,6 +1751,58 @@ N9_DEFS = {
 }
 
 
+def _pull_ctx_ob(ctx, RULE):
+    """a value that is present in the context (or the enclosing one) is returned as it is - whatever it is, an empty name included -
+    and the default only stands in for an absent key"""
+    from .util import evaluator as _evn
+    pf = ctx.fn("smpl_extract/util/constructs.py", "_pull_from_context", RULE)
+    from .streams import _walk as _wk
+    fcfg = ctx.cfg(pf, RULE)
+    cpar2, kpar, dpar = [a_.arg for a_ in pf.args.args][:3]
+    floops = [f_ for f_ in own_nodes(pf) if isinstance(f_, (ast.For, ast.While))]
+    ok, det = len(floops) == 1, "lookup loop not found"
+    if ok:
+        lp_ = fcfg.loop_of(floops[0])
+        cur = None
+        seen_k = set()
+        for kind, path, edge in fcfg.iteration_paths(lp_):
+            pr = _wk(ctx, pf, fcfg, path)
+            ck = [(c_.replace("~", ""), t_) for c_, t_, _n in pr.conds]
+            hit = [c_ for c_, t_ in ck if re.fullmatch(rf"In\({kpar},\((\w+)\)\.keys\(\)\)|In\({kpar},(\w+)\)", c_) and t_]
+            miss = [c_ for c_, t_ in ck if re.fullmatch(rf"In\({kpar},\((\w+)\)\.keys\(\)\)|In\({kpar},(\w+)\)", c_) and not t_]
+            rets = [s_ for s_ in pr.steps if s_.kind == "return"]
+            if hit:
+                cur = re.search(r"\((\w+)\)\.keys|,(\w+)\)$", hit[0])
+                cur = cur.group(1) or cur.group(2)
+                rv = _evn(ctx, pf, rets[0].env).ev(rets[0].ast.value).key().replace("~", "") if rets and rets[0].ast.value is not None else None
+                if rv != f"sub({cur},{kpar})":
+                    ok, det = False, f"a present key yields `{rv}`"
+                seen_k.add("found")
+            elif kind == "back" and miss:
+                cur = re.search(r"\((\w+)\)\.keys|,(\w+)\)$", miss[0])
+                cur = cur.group(1) or cur.group(2)
+                nv = pr.env.get(cur)
+                if nv is None or nv.key().replace("~", "") != f"sub({cur},'_')":
+                    ok, det = False, f"the search continues in `{nv.key() if nv is not None else None}`, not in the enclosing context"
+                seen_k.add("outer")
+        it_ = floops[0].iter if isinstance(floops[0], ast.For) else None
+        ok = ok and seen_k == {"found", "outer"} and it_ is not None and _evn(ctx, pf, {}).ev(it_).key() == "range(2)"
+        if not ok and not det:
+            det = f"lookup loop: cases {sorted(seen_k)}, levels `{norm(it_) if it_ is not None else None}`"
+        # starts at the context itself; falls back to the default
+        rp = [p_ for p_ in run_paths(ctx, pf, rule=RULE) if p_.end == "return" and not p_.conds]
+        ok = ok and all(p_.ret is not None and p_.ret.key() == dpar for p_ in run_paths(ctx, pf, rule=RULE) if p_.end == "return" and not any(
+            c_.startswith("In(") and t_ for c_, t_, _n in p_.conds))
+        starts = [a_ for a_ in pf.body if isinstance(a_, ast.Assign) and cur is not None and norm(a_.targets[0]) == cur]
+        ok = ok and len(starts) == 1 and norm(starts[0].value) == cpar2
+    ctx.ob(RULE, pf, "context values are looked up in the context and its enclosing context", ok, det, inst="_pull_from_context")
+
+
+def rule_N12(ctx):
+    """damage (C14): an empty or zero value read from a damaged record is still that record's value"""
+    _pull_ctx_ob(ctx, "N12")
+
+
 def rule_N9(ctx):
     """every element is created with path = its parent's path + its own name and with its parent, so export paths nest
     <level>/<level>/<name>"""
@@ -1857,47 +1909,8 @@ def rule_N9(ctx):
             ok, det = False, f"under [{p_.cond_key()[:100]}] returns {p_.ret.key()[:200]}"
     ok = ok and n_ret >= 4
     ctx.ob("N9", pc, "pull_child_info: parent from the context, parent_path = parent.path, next_path = parent_path + [name]", ok, det, inst="pull_child_info")
-    pf = ctx.fn("smpl_extract/util/constructs.py", "_pull_from_context", "N9")
+    _pull_ctx_ob(ctx, "N9")
     from .streams import _walk as _wk
-    fcfg = ctx.cfg(pf, "N9")
-    cpar2, kpar, dpar = [a_.arg for a_ in pf.args.args][:3]
-    floops = [f_ for f_ in own_nodes(pf) if isinstance(f_, (ast.For, ast.While))]
-    ok, det = len(floops) == 1, "lookup loop not found"
-    if ok:
-        lp_ = fcfg.loop_of(floops[0])
-        cur = None
-        seen_k = set()
-        for kind, path, edge in fcfg.iteration_paths(lp_):
-            pr = _wk(ctx, pf, fcfg, path)
-            ck = [(c_.replace("~", ""), t_) for c_, t_, _n in pr.conds]
-            hit = [c_ for c_, t_ in ck if re.fullmatch(rf"In\({kpar},\((\w+)\)\.keys\(\)\)|In\({kpar},(\w+)\)", c_) and t_]
-            miss = [c_ for c_, t_ in ck if re.fullmatch(rf"In\({kpar},\((\w+)\)\.keys\(\)\)|In\({kpar},(\w+)\)", c_) and not t_]
-            rets = [s_ for s_ in pr.steps if s_.kind == "return"]
-            if hit:
-                cur = re.search(r"\((\w+)\)\.keys|,(\w+)\)$", hit[0])
-                cur = cur.group(1) or cur.group(2)
-                rv = _evn(ctx, pf, rets[0].env).ev(rets[0].ast.value).key().replace("~", "") if rets and rets[0].ast.value is not None else None
-                if rv != f"sub({cur},{kpar})":
-                    ok, det = False, f"a present key yields `{rv}`"
-                seen_k.add("found")
-            elif kind == "back" and miss:
-                cur = re.search(r"\((\w+)\)\.keys|,(\w+)\)$", miss[0])
-                cur = cur.group(1) or cur.group(2)
-                nv = pr.env.get(cur)
-                if nv is None or nv.key().replace("~", "") != f"sub({cur},'_')":
-                    ok, det = False, f"the search continues in `{nv.key() if nv is not None else None}`, not in the enclosing context"
-                seen_k.add("outer")
-        it_ = floops[0].iter if isinstance(floops[0], ast.For) else None
-        ok = ok and seen_k == {"found", "outer"} and it_ is not None and _evn(ctx, pf, {}).ev(it_).key() == "range(2)"
-        if not ok and not det:
-            det = f"lookup loop: cases {sorted(seen_k)}, levels `{norm(it_) if it_ is not None else None}`"
-        # starts at the context itself; falls back to the default
-        rp = [p_ for p_ in run_paths(ctx, pf, rule="N9") if p_.end == "return" and not p_.conds]
-        ok = ok and all(p_.ret is not None and p_.ret.key() == dpar for p_ in run_paths(ctx, pf, rule="N9") if p_.end == "return" and not any(
-            c_.startswith("In(") and t_ for c_, t_, _n in p_.conds))
-        starts = [a_ for a_ in pf.body if isinstance(a_, ast.Assign) and cur is not None and norm(a_.targets[0]) == cur]
-        ok = ok and len(starts) == 1 and norm(starts[0].value) == cpar2
-    ctx.ob("N9", pf, "context values are looked up in the context and its enclosing context", ok, det, inst="_pull_from_context")
     cd = ctx.fn("smpl_extract/cdda/image.py", "CompactDiskAudioImageAdapter.from_bin_cue", "N9")
     cs = [c for c in own_nodes(cd) if isinstance(c, ast.Call) and norm(c.func) == "AudioTrack"]
     ok = len(cs) == 2 and all({k.arg: norm(k.value) for k in c.keywords}.get("_parent") == "image" and {k.arg: norm(k.value) for k in c.keywords}.get("_path") == "track_path" for c in cs)
